@@ -50,6 +50,12 @@ def misplaced_arguments(ctx: Ctx, files: set[str] | None):
                         continue
                     bad = (p, ta)
                     break
+            if bad is None:
+                # a year OF ERA handed to a parameter that is an absolute year (no era travels with it): 45 BC is year-of-era 45, absolute -44
+                for p, a in b.items():
+                    if _term(a) == "year_of_era" and p in ("year", "absolute_year", "week_year") and not any("era" in q for q in pn if q != p):
+                        bad = (p, "year_of_era")
+                        break
             if bad is None and len(b) >= 2:
                 # crossed-over pair by name tokens: `f(later, earlier)` into (earlier_mapping, later_mapping)
                 def toks(x: str) -> set[str]:
@@ -70,6 +76,9 @@ def _make(prop: str):
         for f, c, t, bad in misplaced_arguments(ctx, anchor_scope(ctx, prop)):
             rr.inst(nontrivial=False)
             if bad:
+                if bad[1] == "year_of_era" and "year_of_era" not in [q.arg for q in t.value_params]:
+                    rr.fail(f.qual, f"`{unparse(c)[:110]}` passes a year of era as the absolute-year parameter `{bad[0]}` of {t.qual} (no era accompanies it): for years <= 0 (BCE) the two differ - absolute year -407 is year-of-era 408", ctx.loc(f, c))
+                    continue
                 rr.fail(f.qual, f"`{unparse(c)[:90]}` passes `{bad[1]}` as parameter `{bad[0]}` of {t.qual}, which also has a parameter `{bad[1]}` that does not receive it", ctx.loc(f, c))
             else:
                 rr.ok()
@@ -878,7 +887,7 @@ SHARED = {
     "C12": [("c09", "r09_12_months_between_is_checked_by_addition"), ("c13", "r13_4_publication")],
     "C16": [("c01", "r01_11_trusted_packings"), ("c10", "r10_14_borrow_and_carry_use_the_right_year"), ("c01", "r01_10_year_starts_vs_year_lengths"), ("c01", "r01_5_per_year_consistency"), ("c02", "r02_5_leap_decisions")],
     "C09": [("c01", "r01_11_trusted_packings"), ("c10", "r10_14_borrow_and_carry_use_the_right_year"), ("c13", "r13_10_cache_slot_is_validated_for_its_own_key"), ("c13", "r13_12_packed_cache_words_are_unpacked"), ("c02", "r02_5_leap_decisions"), ("c01", "r01_3c_day_number_guard"), ("c01", "r01_5_per_year_consistency"), ("c03", "r03_16_unit_factories_split_exactly")],
-    "C11": [("c03", "r03_11_trusted_instants"), ("c10", "r10_14_borrow_and_carry_use_the_right_year"), ("c13", "r13_2_zone_interval_cache"), ("c06", "r06_11_fixed_zone_table"), ("c04", "r04_13_wall_offset_decides_local_time"), ("c03", "r03_16_unit_factories_split_exactly"), ("c10", "r10_16_double_carry_is_symmetric"), ("c04", "r04_14_weekday_adjustment"), ("c17", "r17_11_offset_bucket_range")],
+    "C11": [("c03", "r03_11_trusted_instants"), ("c10", "r10_14_borrow_and_carry_use_the_right_year"), ("c13", "r13_2_zone_interval_cache"), ("c06", "r06_11_fixed_zone_table"), ("c04", "r04_13_wall_offset_decides_local_time"), ("c03", "r03_16_unit_factories_split_exactly"), ("c10", "r10_16_double_carry_is_symmetric"), ("c04", "r04_14_weekday_adjustment"), ("c17", "r17_11_offset_bucket_range"), ("c01", "r01_5_per_year_consistency"), ("c15", "r15_12_timedelta_fields")],
     "C15": [("c03", "r03_11_trusted_instants"), ("c02", "r02_5_leap_decisions"), ("c03", "r03_15_duration_truncated_views"), ("c01", "r01_14_gregorian_fast_tables"), ("c01", "r01_5_per_year_consistency")],
     "C14": [("c03", "r03_14_tick_arithmetic")],
     "C07": [("c08", "r08_7_embedded_fields"), ("c17", "r17_8_variable_precision_predicates"), ("c08", "r08_10_field_set_tests"), ("c17", "r17_7_sign_predicates"), ("c17", "r17_2_exact_arithmetic"), ("c17", "r17_14_offset_field_getters"), ("c17", "r17_1_iso_shape")],
